@@ -334,12 +334,26 @@ func (c18) Gen(r *sim.RNG, tier string, idx int) *Scenario {
 	if r.Bool(0.3) {
 		cfg.IDs = 3
 	}
+	if r.Bool(0.3) {
+		cfg.IDScopes = true
+	}
 	sc.Cfg = &cfg
 	sc.World = gen.Generate(r, cfg)
 	// a sequence of element expansions; Run derives the cache-state variants of each
 	n := 2 + r.Intn(4)
 	ops := elementOps(sc.World, r, 0, false)
 	var seq []Op
+	if cfg.IDScopes {
+		var only []Op
+		for _, o := range ops {
+			if o.Entry == "ExpandSchemaWithBasePath" {
+				only = append(only, o)
+			}
+		}
+		if len(only) > 0 {
+			ops = only
+		}
+	}
 	for i := 0; i < n && len(ops) > 0; i++ {
 		op := ops[r.Intn(len(ops))]
 		op.Cache = "reuse"
@@ -384,7 +398,7 @@ func (c18) Run(sc *Scenario) *Verdict {
 	v := &Verdict{}
 	w := sc.World
 	full := w.Reachable(w.RootNode(), false)
-	hasIDs := sc.Cfg != nil && sc.Cfg.IDs > 0
+	hasIDs := sc.Cfg != nil && (sc.Cfg.IDs > 0 || sc.Cfg.IDScopes)
 	if (len(full.Bad) > 0 || full.IllFound) && !hasIDs {
 		v.Inconclusive = "world is not well-formed (outside this property's quantifier)"
 		return v
